@@ -19,7 +19,7 @@ import re
 import sys
 import time
 
-from . import c05_hist, common, regexconf
+from . import c05_hist, c05_objs, common, regexconf
 from .common import coq_bytes, coq_list
 
 LEVEL = "proof"
@@ -502,7 +502,9 @@ def correspondence(rep, rx, plats, rng, thorough, info_all):
                 ops += [("S",)] + qs(rng.randint(2, 4)) + [("Q", x) for x in pool[-2:]]
             for stack in ("sync", "async"):
                 drv = make_real_driver(p, "base", stack)
-                raw = type(drv)._determine_current_priv.__wrapped__
+                # the uncached classifier: lru_cache's own __wrapped__, or (no lru_cache in this tree) python re over the object's table
+                _w = getattr(type(drv)._determine_current_priv, "__wrapped__", None)
+                raw = _w if _w is not None else (lambda d, t: c05_objs.table_classify(d, t))
                 outs, coq_ops = [], []
                 for op in ops:
                     if op[0] == "Q":
@@ -551,12 +553,15 @@ def correspondence(rep, rx, plats, rng, thorough, info_all):
             rep.notes.append("cache history disagreement: %r" % (meta[bad[0]],))
     info_all["cache_histories"] = hist_stats
 
+    # (c') several driver objects alive at once: the class-wide cache must not hand one object another one's answer
+    c05_objs.objects_suite(sys.modules[__name__], rep, rx, plats, rng, thorough, info_all, coq_bytes, coq_list, common, wd)
+
     # (d) histories with IN-PLACE edits of existing level objects + update_privilege_levels (all platforms), and
     # (e) prompt detection after commandeer (oracle only).  Last: they edit level objects of their own drivers.
     me = sys.modules[__name__]
     if c05_hist.edit_histories(me, rep, rx, plats, rng, thorough, info_all, coq_bytes, coq_list, common, _coqc):
         c05_hist.commandeer_suite(me, rep, rx, plats, rng, thorough, info_all)
-    rep.coverage["correspondence"] = {"suites": ["regex-conformance", "prompt-classify", "get_prompt-detect", "prompt-cache",
+    rep.coverage["correspondence"] = {"suites": ["regex-conformance", "prompt-classify", "get_prompt-detect", "prompt-cache", "prompt-cache-objects",
                                                  "prompt-cache-in-place-edits", "get_prompt-after-commandeer"]}
     rep.sample({"platform": "cisco_nxos", "example": "switch(maint-mode)(config-subif)# -> ['configuration']"})
 
@@ -607,6 +612,8 @@ def replay(path):
         conv = {"R": ["T", [["register", "s1"]]], "S": ["T", [["retire", "s1"], ["register", "s2"]]]}
         ops = [["Q", o[1]] if o[0] == "Q" else conv[o[0]] for o in r["ops"]]
         return c05_hist.replay_history(sys.modules[__name__], {"platform": r["platform"], "stack": r.get("stack", "sync"), "ops": ops})
+    if kind == "cache-objects":
+        return c05_objs.replay(sys.modules[__name__], r)
     if kind == "edit-isolation":
         return c05_hist.replay_isolation(sys.modules[__name__], r)
     if kind == "commandeer":
@@ -624,6 +631,11 @@ MANIFEST = {
             "(atoms validated), whose soundness is proved once: C05_decision_sound, C05_fact_sound, C05_obligations_sound (props/C05.v, Closed under the global context). "
             "C05_cache_transparent: for EVERY history of classification queries and table updates the lru_cache in front of the classifier is invisible, given that "
             "update_privilege_levels clears it and register_configuration_session calls it (facts read from the source by ast on every run); refuted without the clear. "
+            "C05_cache_transparent_objects: the same for SEVERAL driver objects alive in one process (lru_cache on a method is one cache for the class: shared capacity, "
+            "cache_clear() of any object empties it for all) on every interleaved history of any number of objects, given that the key contains the object (read from the source: "
+            "the decorated function is the plain method, and its body touches nothing but self.privilege_levels, self.logger and its argument — any hand-made memo makes the translator "
+            "refuse); refuted for a key without the object (C05_cache_shared_key_refuted). Confronted with 2-3 real driver objects of one platform (model-compared, NX-OS / EOS session "
+            "tables) and of different platforms (oracle-only: python re over each object's own table). "
             "The same theorem covers IN-PLACE edits of existing level objects (Update t with the edited table): histories on the real drivers of all five platforms classify "
             "prompts, then edit .pattern / .not_contains of the existing PrivilegeLevel objects (host class widened, length bound narrowed, not_contains entry added / removed; "
             "controls: object replaced, level added, undo), call update_privilege_levels(), and classify / get_prompt the prompts that tell the old table from the new one; "
